@@ -15,13 +15,13 @@ def wrapz(bits, x):
 def gen_cases(sd, tr):
     g = LCG(sd * 5 + 16)
     cases = []
-    sizes = list(range(1, 41)) + [48, 63, 64, 65]
+    sizes = list(range(1, 41)) + [48, 63, 64, 65, 127, 128, 129, 130, 137]
     reps = 1 if tr == 'quick' else 4
     pats = ['pos', 'neg', 'mixed', 'extreme']
     for rep in range(reps):
         for n in sizes:
             for ty in TY:
-                if tr == 'quick' and (n + len(ty)) % 2 and n > 20: continue
+                if tr == 'quick' and (n + len(ty)) % 2 and 20 < n < 48: continue
                 pat = pats[(n + rep + len(cases)) % 4]
                 cases.append({'id': len(cases), 'kind': 'red', 'ty': ty, 'n': n, 'pat': pat, 'pos': g.next() % n, 'seed': g.next() % 100000})
     for n in list(range(1, 21)) + [33, 40]:
@@ -54,11 +54,13 @@ CPP_HEAD = r'''
 using namespace Fastor;
 template<typename T, size_t N> static void red_case(long id, const long long* num, int den) {
     Tensor<T,N> t, z; for (size_t i = 0; i < N; ++i) { t.data()[i] = (T)num[i] / (T)den; z.data()[i] = T(0); }
-    T r[12];
+    T r[16];
+    Tensor<T,1,N> t2; for (size_t i = 0; i < N; ++i) t2.data()[i] = t.data()[i];
+    r[12] = sum(trans(t2)); r[13] = product(trans(t2)); r[14] = min(trans(t2)); r[15] = max(trans(t2));   // arguments that require evaluation
     r[0] = sum(t); r[1] = product(t); r[2] = min(t); r[3] = max(t);
     r[4] = sum(t + z); r[5] = product(t + z); r[6] = min(t + z); r[7] = max(t + z);   // lazy expression arguments
     r[8] = t.sum(); r[9] = t.product(); r[10] = norm(t); r[11] = inner(t, t);
-    vh_line("R", id, r, 12);
+    vh_line("R", id, r, 16);
 }
 template<typename T, size_t N> static void pred_case(long id, const int* b) {
     Tensor<T,N> t; for (size_t i = 0; i < N; ++i) t.data()[i] = b[i] ? T(3) : T(-2);
@@ -177,7 +179,7 @@ def main():
                 n_cross += 1
                 if model[Ws[0]][('D', cid)] != [v]: rep.violation('extracted model differs from vm_compute (det, case %d)' % cid, {'case': byid[cid]}, no_input=True, key='extraction')
     n_eval = 0; mism = []; dist = {}; maxerr = {'sum': 0.0, 'det': 0.0}
-    NAMES = ['sum(t)', 'product(t)', 'min(t)', 'max(t)', 'sum(expr)', 'product(expr)', 'min(expr)', 'max(expr)', 't.sum()', 't.product()', 'norm(t)', 'inner(t,t)']
+    NAMES = ['sum(t)', 'product(t)', 'min(t)', 'max(t)', 'sum(expr)', 'product(expr)', 'min(expr)', 'max(expr)', 't.sum()', 't.product()', 'norm(t)', 'inner(t,t)', 'sum(trans(t))', 'product(trans(t))', 'min(trans(t))', 'max(trans(t))']
     for r in allres:
         if r[0] != 'B': continue
         _, cfg, si, res, log = r
@@ -204,8 +206,8 @@ def main():
                     want = [s, p, min(d), max(d)]
                     mv = model[W][('M', c['id'])]
                     if mv != want: mism.append({'what': 'model-vs-spec', 'cfg': cfg.name, 'case': c, 'model': mv, 'spec': want})
-                    exp = want + want + [s, p, None, wrapz(bits, sum(x * x for x in d))]
-                    for k in range(12):
+                    exp = want + want + [s, p, None, wrapz(bits, sum(x * x for x in d))] + want
+                    for k in range(16):
                         if exp[k] is None: continue
                         if got[k] != exp[k]: mism.append({'what': NAMES[k], 'cfg': cfg.name, 'case': c, 'impl': str(got[k]), 'expected': str(exp[k])})
                 else:
@@ -214,8 +216,8 @@ def main():
                     for x in xs: p *= x
                     ss = sum(x * x for x in xs)
                     bsum = ((1 + u) ** (n + W) - 1) * sa; bprod = ((1 + u) ** (n + W + 2) - 1) * abs(p)
-                    exp = [(s, bsum), (p, bprod), (min(xs), 0), (max(xs), 0)] * 2 + [(s, bsum), (p, bprod), None, (ss, ((1 + u) ** (n + W + 1) - 1) * ss)]
-                    for k in range(12):
+                    exp = [(s, bsum), (p, bprod), (min(xs), 0), (max(xs), 0)] * 2 + [(s, bsum), (p, bprod), None, (ss, ((1 + u) ** (n + W + 1) - 1) * ss)] + [(s, bsum), (p, bprod), (min(xs), 0), (max(xs), 0)]
+                    for k in range(16):
                         if exp[k] is None:
                             # norm = sqrt(sum of squares): relative bound
                             ex = math.sqrt(float(ss)); gv = float(got[k]) if not isinstance(got[k], str) else float('nan')
